@@ -46,7 +46,7 @@ FACTS = ("tables", "c14")
 RULE = ("configurations drawn from a seeded generator (0-2 paths with optional per-path locales, "
         "0-4 rules with single/list paths, absent/literal/re:/list/nested-list keys, three actions; "
         "children to depth 2; excluded configurations at the root) x queries over 13 files x 5 file "
-        "locales (incl. an unknown one and None) x 10 keys (incl. none, '', trailing newline, regex metacharacters); a case "
+        "locales (incl. an unknown one and None) x 22 keys (incl. none, '', trailing newline, regex metacharacters, keys separating `re:<expr>` from an expression that lost leading r/e/: characters); a case "
         "is one (configuration, query) pair and is distinct by its rendered text; trivial cases "
         "(locale not in the project) are a minority by construction (see histogram verdicts)")
 
@@ -61,10 +61,17 @@ PLOCS = ["de", "fr"]
 DIRS = ["a", "c", "a/d"]
 NAMES = ["b.ftl", "e.properties"]
 FILES = [(pl, d, n) for pl in PLOCS for d in DIRS for n in NAMES] + [(None, "other", "x.ftl")]
-KEYS = [None, "", "k1", "k1\n", "k2", "k2x", "xk1", "kk", "k.", "kx"]
+KEYS = [None, "", "k1", "k1\n", "k2", "k2x", "xk1", "kk", "k.", "kx",
+        # keys that tell `re:<expr>` from an expression that lost leading r/e/: characters
+        "reader-x", "ader-x", "edit-copy", "dit-copy", ":colon-a", "colon-a", "e", "eerie", "ie",
+        "re:x", "x", "r"]
 LIT_KEYS = ["k1", "k2", "", "k2x", "k1\n", "zz", "k.", "k(1)"]
 RE_KEYS = ["re:k.*", "re:k\\d$", "re:.*x", "re:", "re:k1|k2", "re:(k)\\1", "re:k[12]\\Z", "re:^k2",
            "re:.+\\n", "re:k(?=2)", "re:[^k]"]
+# expressions that start with the characters of the prefix itself (only the literal
+# 3-character prefix `re:` may be removed)
+RE_PREFIXY = ["re:reader-.*", "re:edit-(copy|paste)$", "re::colon-.*", "re:e", "re:re:x", "re:eerie",
+              "re:r", "re:e.*e$", "re:::", "re:er"]
 BAD_RE = ["re:(", "re:[a", "re:*"]
 
 
@@ -143,9 +150,11 @@ def gen_key(rng, depth=0):
     if r < 0.4:
         return rng.choice(LIT_KEYS)
     if r < 0.75:
+        if rng.random() < 0.3:
+            return rng.choice(RE_PREFIXY)
         return rng.choice(RE_KEYS[:5]) if rng.random() < 0.6 else rng.choice(RE_KEYS)
     n = rng.choice([0, 1, 2, 2, 3])
-    return [gen_key(rng, depth + 1) if depth < 2 else rng.choice(LIT_KEYS + RE_KEYS) for _ in range(n)]
+    return [gen_key(rng, depth + 1) if depth < 2 else rng.choice(LIT_KEYS + RE_KEYS + RE_PREFIXY) for _ in range(n)]
 
 
 BROAD = ["{l}/**", "l10n/{locale}/**", "l10n/*/**", "{l}/a/**", "l10n/de/**", "l10n/{locale}/**/b.ftl",
@@ -368,7 +377,8 @@ def enc_op(op):
 
 # --------------------------------------------------------------------- oracle ---
 def o_key_matches(k, ent):
-    if k.startswith("re:"):
+    # own evaluation: the expression is the text after the literal 3-character prefix
+    if k[:3] == "re:":
         return re.match(k[3:], ent) is not None
     return ent == k or ent == k + "\n"
 
@@ -443,7 +453,7 @@ def gen_queries(rng, n):
     for fi, f in enumerate(FILES):
         own = LOCS.index(f[0]) if f[0] is not None else rng.randrange(3)
         for li in {own, rng.choice([0, 0, 1, 1, 2, 2, 3, 4]) if rng.random() < 0.3 else own}:
-            for key in rng.sample(KEYS, 4) + [None]:
+            for key in rng.sample(KEYS[:10], 3) + rng.sample(KEYS[10:], 2) + [None]:
                 qs.append((0, li, fi, key))
     rng.shuffle(qs)
     return qs[:n]
@@ -574,7 +584,8 @@ STALE_WITNESS = (
 
 
 # -------------------------------------------------------------------- compile ---
-PROBES = ["", "k1", "k1\n", "k1\n\n", "k2", "k2x", "xk1", "kk", "k", "\n", "zz", "k12", "k.", "kx",
+PROBES = ["reader-x", "ader-x", "edit-copy", "dit-copy", ":colon-a", "colon-a", "e", "eerie", "ie",
+          "re:x", "x", "r", "", "k1", "k1\n", "k1\n\n", "k2", "k2x", "xk1", "kk", "k", "\n", "zz", "k12", "k.", "kx",
           "k(1)", "k.\n"]
 
 
@@ -645,7 +656,7 @@ def check_literal_asts(chk, rules):
 
 
 # --------------------------------------------------------------------- in-file ---
-PROP_KEYS = ["k1", "k2", "k2x", "xk1", "kk", "zz"]
+PROP_KEYS = ["k1", "k2", "k2x", "xk1", "kk", "zz", "reader-x", "ader-x", "e"]
 
 
 def run_infile_case(rng, tmp, idx):
@@ -683,7 +694,8 @@ def run_infile_case(rng, tmp, idx):
                  "action": rng.choice(ACTIONS)}
             if rng.random() < 0.85:
                 r["key"] = rng.choice([rng.choice(PROP_KEYS), rng.choice(PROP_KEYS),
-                                       "re:k.*", "re:.*x$", "re:", [rng.choice(PROP_KEYS), "re:z"]])
+                                       "re:k.*", "re:.*x$", "re:", "re:reader-.*", "re:e",
+                                       [rng.choice(PROP_KEYS), "re:z"]])
             rules.append(r)
         covered = rng.random() < 0.85
         desc = {"locales": ["de"] if rng.random() < 0.9 else ["fr"],
@@ -797,11 +809,12 @@ def run(chk, runner_ok):
     rng = chk.rng
     model = Model("C14") if runner_ok else None
     # pre-filter the regex pool: only expressions the translator supports
-    for k in list(RE_KEYS):
-        try:
-            rx2coq.parse(k[3:])
-        except rx2coq.Unsupported:
-            RE_KEYS.remove(k)
+    for pool in (RE_KEYS, RE_PREFIXY):
+        for k in list(pool):
+            try:
+                rx2coq.parse(k[3:])
+            except rx2coq.Unsupported:
+                pool.remove(k)
     # ---- corpus ---------------------------------------------------------
     cdir = os.path.join(common.VERIF, "corpus", "C14")
     corpus = []
